@@ -65,8 +65,18 @@ func patternFeatures(p ignorex.MPattern) string {
 	return sb.String()
 }
 
+// negatedClass reports whether some pattern holds a negated character class.
+func negatedClass(list []string) bool {
+	for _, p := range list {
+		if strings.Contains(p, "[!") || strings.Contains(p, "[^") {
+			return true
+		}
+	}
+	return false
+}
+
 func c14Match(r *vk.Run) {
-	total := r.Pick(20000, 5000000)
+	total := r.Pick(200000, 5000000)
 	workers := runtime.NumCPU()
 	per := (total + workers - 1) / workers
 	var sampleMu sync.Mutex
@@ -89,6 +99,8 @@ func c14Match(r *vk.Run) {
 				continue
 			}
 			ref := ignorex.NewMRef(list, false)
+			alt := ignorex.NewMRef(list, false)
+			alt.NegClassSlash = true
 			k := 4 + rng.Intn(9)
 			for j := 0; j < k && done < per; j++ {
 				path := ignorex.RandomPath(rng, list)
@@ -103,6 +115,9 @@ func c14Match(r *vk.Run) {
 				v := ref.Decide(path, dir)
 				if !v.OwnOK {
 					r.Count("i_own_doublestar_matcher_differs_from_doublestar", 1)
+					if os.Getenv("VERIF_DEBUG") != "" {
+						fmt.Printf("DEBUG own-vs-doublestar: patterns=%q path=%q dir=%v\n", list, path, dir)
+					}
 				}
 				realIgnored := st == ignore.IgnoreStatusIgnored
 				deciding := "none"
@@ -114,7 +129,20 @@ func c14Match(r *vk.Run) {
 						deciding = "negated"
 					}
 				}
-				if realIgnored != v.Ignored {
+				if realIgnored != v.Ignored && alt.Decide(path, dir).Ignored == realIgnored && negatedClass(list) {
+					// One specific, recorded defect gets its own signature: a
+					// negated character class matches the '/' separator, so a
+					// pattern reaches across directory levels. The signature
+					// is given ONLY if the list holds a negated class AND the
+					// disagreement disappears when the reference's own matcher
+					// is switched to let negated classes match '/' (nothing
+					// else changes: ignorex.MRef.NegClassSlash). Any other
+					// disagreement keeps rule=last-match-wins below.
+					r.Count("i_negated_class_matches_separator", 1)
+					r.Violation(map[string]string{"rule": "negated-class-matches-separator"},
+						fmt.Sprintf("Ignore(%q, dir=%v) with %q: real ignored=%v, reference ignored=%v; explained by a negated character class matching the '/' separator", path, dir, list, realIgnored, v.Ignored),
+						map[string]any{"part": "ignore-fn", "patterns": list, "path": path, "directory": dir, "real_status": int(st), "reference_ignored": v.Ignored})
+				} else if realIgnored != v.Ignored {
 					r.Violation(map[string]string{"part": "ignore-fn", "rule": "last-match-wins",
 						"expected_ignored": fmt.Sprint(v.Ignored), "deciding": deciding, "directory": fmt.Sprint(dir)},
 						fmt.Sprintf("Ignore(%q, dir=%v) with %q: real status %d (ignored=%v), reference ignored=%v (last matching pattern index %d)", path, dir, list, st, realIgnored, v.Ignored, v.Deciding),
@@ -223,7 +251,7 @@ func genScanCase(r *vk.Run, i int) scanCase {
 }
 
 func c14Scan(r *vk.Run) {
-	n := r.Pick(60, 3000)
+	n := r.Pick(150, 3000)
 	base := filepath.Join(r.Scratch(), "scan")
 	os.MkdirAll(base, 0o755)
 	var sampleMu sync.Mutex
@@ -239,6 +267,36 @@ func c14Scan(r *vk.Run) {
 		}
 		r.Eval(1)
 		ref := ignorex.NewMRef(c.Patterns, c.VCS)
+		alt := ignorex.NewMRef(c.Patterns, c.VCS)
+		alt.NegClassSlash = true
+		cfg := fsx.DefaultScanConfig()
+		cfg.Patterns = c.Patterns
+		cfg.IgnoreVCS = c.VCS
+		realIgnorer, igErr := cfg.NewIgnorer()
+		if igErr != nil {
+			r.Violation(map[string]string{"part": "scan", "rule": "grammar-pattern-rejected"}, fmt.Sprintf("NewIgnorer rejected %q: %v", c.Patterns, igErr), c.witness())
+			return
+		}
+		// decide is the reference verdict — except on paths hit by the
+		// separately reported negated-class defect (list holds a negated
+		// class, the NegClassSlash variant of the reference disagrees with the
+		// reference there, and the real ignorer sides with the variant), where
+		// the remaining scan checks (pruning, cache, sensor) follow what the
+		// ignorer really says. Such a case is reported once under
+		// rule=negated-class-matches-separator.
+		var quirkPaths []string
+		decide := func(p string, dir bool) ignorex.Verdict {
+			v := ref.Decide(p, dir)
+			if negatedClass(c.Patterns) {
+				if va := alt.Decide(p, dir); va.Ignored != v.Ignored {
+					if st, _ := realIgnorer.Ignore(p, dir); (st == ignore.IgnoreStatusIgnored) == va.Ignored {
+						quirkPaths = append(quirkPaths, p)
+						return va
+					}
+				}
+			}
+			return v
+		}
 
 		// Classify the generated tree with the reference: traversed
 		// directories, top-most ignored paths, directories at or below an
@@ -264,7 +322,7 @@ func c14Scan(r *vk.Run) {
 					}
 					continue
 				}
-				v := ref.Decide(q, ch.Dir)
+				v := decide(q, ch.Dir)
 				if v.Ignored {
 					ignoredTop[q] = true
 					if ch.Dir {
@@ -323,9 +381,14 @@ func c14Scan(r *vk.Run) {
 			return
 		}
 
-		cfg := fsx.DefaultScanConfig()
-		cfg.Patterns = c.Patterns
-		cfg.IgnoreVCS = c.VCS
+		if len(quirkPaths) > 0 {
+			r.Count("ii_scans_hit_by_negated_class_defect", 1)
+			w := c.witness()
+			w["part"] = "scan"
+			w["paths"] = quirkPaths
+			r.Violation(map[string]string{"rule": "negated-class-matches-separator"},
+				fmt.Sprintf("patterns %q: the ignorer's verdict for %v differs from the reference; explained by a negated character class matching the '/' separator", c.Patterns, quirkPaths), w)
+		}
 		var state *fsx.ScanState
 		var scanErr error
 		r.Guard(c.witness(), func() { state, scanErr = fsx.Cold(root, cfg) })
@@ -383,7 +446,7 @@ func c14Scan(r *vk.Run) {
 		// Snapshot as a whole vs the independent walker driven by the reference.
 		want, _, werr := fsx.Walk(root, fsx.WalkOptions{
 			SymbolicLinkMode: cfg.SymbolicLinkMode, PermissionsMode: cfg.PermissionsMode,
-			Ignored: func(p string, dir bool) bool { return ref.Decide(p, dir).Ignored },
+			Ignored: func(p string, dir bool) bool { return decide(p, dir).Ignored },
 		})
 		if werr != nil {
 			r.Inconclusive("walker-failed")
